@@ -114,7 +114,7 @@ def bestSignatureMatch (sig : List Dtype) (cands : List (List Dtype)) : Best :=
       if ((d0 :: ds).filter (· == bd)).length == 1 then .idx bi else .ambiguous
 
 inductive LcaResult where
-  | ok (d : Dtype) | dataTypeError | ambiguous | internalError
+  | ok (d : Dtype) | dataTypeError | internalError
   deriving DecidableEq, Repr
 
 def decimalLca (ds : List Dtype) : Dtype :=
@@ -140,10 +140,8 @@ def lcaTypeFuel : Nat → List Dtype → LcaResult
     match ds with
     | [] => .ok .null
     | d0 :: _ =>
-      if isList d0 then
-        -- the source builds its message with `diff.__name__` on a Dtype *instance*:
-        -- AttributeError, never the intended DataTypeError (finding D25)
-        if ds.any (fun d => !isList d) then .internalError
+      if ds.any isList then
+        if ds.any (fun d => !isList d) then .dataTypeError
         else match lcaTypeFuel fuel (ds.map listInner) with
           | .ok i => .ok (.list i)
           | r => r
@@ -169,7 +167,7 @@ def lcaTypeFuel : Nat → List Dtype → LcaResult
             | .idx i => match common[i]? with
                 | some t => .ok t
                 | none => .internalError
-            | .ambiguous => .ambiguous
+            | .ambiguous => .internalError      -- `assert best_index is not None`
             | .internalError => .internalError
 
 def lcaType (ds : List Dtype) : LcaResult := lcaTypeFuel 8 ds
